@@ -59,6 +59,9 @@ func statusParse(c *casket.Controller) ([]httpserver.HandlerConfig, error) {
 			if err != nil {
 				return rules, c.Errf("Expecting a numeric status code, got '%s'", args[0])
 			}
+			if !validStatusCode(status) {
+				return rules, c.Errf("Expecting an HTTP status code (100-999), got '%s'", args[0])
+			}
 
 			for c.NextBlock() {
 				hadBlock = true
@@ -87,6 +90,9 @@ func statusParse(c *casket.Controller) ([]httpserver.HandlerConfig, error) {
 			if err != nil {
 				return rules, c.Errf("Expecting a numeric status code, got '%s'", args[0])
 			}
+			if !validStatusCode(status) {
+				return rules, c.Errf("Expecting an HTTP status code (100-999), got '%s'", args[0])
+			}
 
 			basePath := args[1]
 			for _, cfg := range rules {
@@ -104,4 +110,11 @@ func statusParse(c *casket.Controller) ([]httpserver.HandlerConfig, error) {
 	}
 
 	return rules, nil
+}
+
+// validStatusCode reports whether code can be written as an HTTP status
+// code: net/http panics on WriteHeader with anything outside 100-999, so a
+// rule with such a code would turn every matching request into a panic.
+func validStatusCode(code int) bool {
+	return code >= 100 && code <= 999
 }
